@@ -11,13 +11,13 @@ import (
 
 // separate returns the separate-package variant of an entry.
 func separate(e *descgen.Entry, override bool) *pipeline.Case {
-	c := caseFrom(e)
+	n := e.Name + "s"
+	if override {
+		n += "o"
+	}
+	c := caseFrom(descgen.Rename(e, n))
 	c.Separate = true
 	c.UseOverride = override
-	c.Name = e.Name + "s"
-	if override {
-		c.Name += "o"
-	}
 	c.Tags = append(c.Tags, "separate-package")
 	return c
 }
@@ -30,9 +30,6 @@ func c01Corpus(r *Run) []*pipeline.Case {
 		cases = append(cases, caseFrom(e))
 	}
 	for i, e := range descgen.Curated() {
-		if e.Name == "k10b" {
-			continue
-		}
 		if r.thorough() || i%2 == 0 {
 			cases = append(cases, separate(e, i%4 == 0))
 		}
